@@ -80,7 +80,8 @@ CHECKS["C02"] = dict(engine="codec", category="proof", design_ref="DESIGN.md §5
          "ncoding an accepted program reproduces the bits/bytes for any injective assignment of sharing ids and also whe"
          "n some ids are absent (commitment time), one rejection theorem per canonicity rule with accepting counterparts"
          ". Typing inside decode, stack depth and allocation are not modelled: every input is run through all three deco"
-         "ders in debug and release builds in isolated processes with time and memory limits.",
+         "ders in debug and release builds in isolated processes with time and memory limits, and the peak heap use of every "
+         "decode is measured by a counting allocator against an allowance linear in the input.",
     note="Trusted: as C01. Open finding F-C02b (recursive unifier overflows the native stack for a ~37 KB program) is printed as "
          "KNOWN-FINDING for that generator family only.",
     technique="Coq proof of decoder canonicity/totality + correspondence + mutation-based search on byte strings")
@@ -172,7 +173,11 @@ CHECKS["C18"] = dict(engine="dag", category="proof", design_ref="DESIGN.md §5 C
          "child indices point at the children's classes, root last and no unreferenced item (acyclic keys), every reachable "
          "class yielded (congruent keys), NoSharing = tree expansion, rtl = mirror, pre-order parents first and same nodes, "
          "is_shared_as iff same node sequence; the key hypotheses are shown satisfiable and necessary. Exhaustive over all "
-         "DAG shapes up to 5 (quick) / 6 (thorough) nodes and all key partitions, plus random DAGs and real programs.",
+         "DAG shapes up to 5 (quick) / 6 (thorough) nodes and all key partitions, plus random DAGs and real programs. "
+         "Node::convert modelled as written (loop over the items, converted vector, all hooks): no panic, one converted node "
+         "per item with the converted children of the children's classes, hook order (prefix when failing), closed form for "
+         "pruning converters, identity up to un-sharing; the real convert is driven with an instrumented converter; by-value "
+         "Arc<Node> iteration compared with by-reference iteration for every Disconnectable.",
     note="Trusted: Coq kernel, hand-written model, harness (DagLike over a table, keyed tracker), python recursive references.",
     technique="Coq refinement proof (explicit-stack iterator = recursive specification) + exhaustive-small correspondence")
 CHECKS["C17"] = dict(engine="human", category="proof", design_ref="DESIGN.md §5 C17, §11.3",
